@@ -237,7 +237,20 @@ def check_decoder(F, rep, ent):
             sf = F.fn(q.replace(">::parse_at", ">::size_for"))
             if sf is not None:
                 san = analyze_fn(F, sf, (("var", T.param(1), cname),))
-                vals = {pp(x) for x, _ in (san.ret_leaves() or [])}
+                # a size written in terms of a sibling's (`Rel::size_for(class) + size_of::<i64>()`): the sibling's size_for is described
+                # by cases, so that under the class assumption it is a number again
+                sibs_ = {c_.callee_qual for c_ in san.calls() if c_.callee_qual != sf["qual"] and c_.callee_qual.endswith(" as parse::ParseAt>::size_for")}
+                if sibs_:
+                    from ..engine import Program
+                    san = Program(F, dissolve=sibs_).analysis(sf, (("var", T.param(1), cname),))
+                vals = set()
+                for x, st_ in (san.ret_leaves() or []):
+                    x = san.simp(x, st_.facts)
+                    if x.op == "proj" and x.args[0].op == "bin" and x.args[0].args[0].endswith("WithOverflow") and x.args[1][:2] == ("f", 0):
+                        a_, b_ = x.args[0].args[1], x.args[0].args[2]
+                        if a_.op == "const" and b_.op == "const" and x.args[0].args[0] == "AddWithOverflow":
+                            x = T.const("usize", a_.args[1] + b_.args[1])
+                    vals.add(pp(x))
                 rep.require(vals == {"%d_usize" % cls["size"]}, "decode-size", key + ":size_for", wh(sf["span"]),
                             "size_for(%s) == %d" % (cname, cls["size"]), "size_for(%s) of %s evaluates to %s, ABI size is %d" % (cname, q, sorted(vals), cls["size"]))
         # ---- error outcomes
